@@ -40,6 +40,98 @@ func Thorough(p *Program, rep *PropertyReport, spec *PropertySpec, root string) 
 		fmt.Sscan(v, &seed)
 	}
 	rep.Extra["sensitivity_sweep"] = sweep(p, rep, spec, seed)
+	rep.Extra["seeded_changes"] = replaySeeds(p, rep, root)
+}
+
+// replaySeeds re-applies the independently written regressions kept under <verif>/seeded/<property>*/patch.diff to
+// scratch copies of the CURRENT tree and records whether this property's quick rules report them. It validates the
+// checker, not the library: a seed that is not reported is listed as a blind spot, never as a violation, and a patch
+// that no longer applies to the current source is listed as such.
+func replaySeeds(p *Program, rep *PropertyReport, root string) map[string]interface{} {
+	res := map[string]interface{}{
+		"what": "regressions written by context-free sub-agents against this property (seeded/<id>*/patch.diff, see DESIGN 9.7), applied with patch(1) to scratch copies of the current tree, type-checked and analysed by this property's quick rules in a separate process; nothing is executed",
+	}
+	dirs, _ := filepath.Glob(filepath.Join(root, "seeded", rep.Property+"*"))
+	sort.Strings(dirs)
+	exe, err := os.Executable()
+	if err != nil {
+		res["result"] = "cannot locate own executable"
+		return res
+	}
+	var rows []map[string]string
+	reported, applied := 0, 0
+	for _, d := range dirs {
+		patch := filepath.Join(d, "patch.diff")
+		if _, err := os.Stat(patch); err != nil {
+			continue
+		}
+		row := map[string]string{"seed": filepath.Base(d)}
+		dir, err := os.MkdirTemp("", "raftlint-seed-")
+		if err != nil {
+			continue
+		}
+		func() {
+			defer os.RemoveAll(dir)
+			if err := copyTree(p.RepoDir, dir); err != nil {
+				row["outcome"] = "copy failed"
+				return
+			}
+			env := append(os.Environ(), "GOFLAGS=-mod=mod", "GOPROXY=off", "GOSUMDB=off", "GOWORK=off", "GOTOOLCHAIN=local")
+			pc := exec.Command("patch", "-p1", "-s", "--no-backup-if-mismatch", "-i", patch)
+			pc.Dir = dir
+			if err := pc.Run(); err != nil {
+				row["outcome"] = "patch no longer applies to the current source"
+				return
+			}
+			build := exec.Command("go", "build", "./...")
+			build.Dir = dir
+			build.Env = env
+			if err := build.Run(); err != nil {
+				row["outcome"] = "does not compile on the current source"
+				return
+			}
+			applied++
+			cmd := exec.Command(exe, "-repo", dir, "-verif", root, "-no-evidence", "-property", rep.Property, "-tier", "quick", "-json")
+			cmd.Env = env
+			var out bytes.Buffer
+			cmd.Stdout = &out
+			err := cmd.Run()
+			code := 0
+			if ee, ok := err.(*exec.ExitError); ok {
+				code = ee.ExitCode()
+			} else if err != nil {
+				code = 2
+			}
+			var obs []Obligation
+			_ = json.Unmarshal(out.Bytes(), &obs)
+			rules := map[string]bool{}
+			for _, o := range obs {
+				if o.Verdict == Violated {
+					rules[o.Rule] = true
+				}
+			}
+			var names []string
+			for r := range rules {
+				names = append(names, r)
+			}
+			sort.Strings(names)
+			switch code {
+			case 1:
+				reported++
+				row["outcome"] = "reported"
+				row["rules"] = strings.Join(names, ", ")
+			case 0:
+				row["outcome"] = "NOT reported (blind spot of this property's quick rules)"
+			default:
+				row["outcome"] = "undecided (exit 2)"
+			}
+		}()
+		rows = append(rows, row)
+	}
+	res["seeds"] = rows
+	res["applied"] = applied
+	res["reported"] = reported
+	return res
 }
 
 // secondConfig compares the Go file sets of the module under the default GOARCH and under 386.
